@@ -95,7 +95,7 @@ func cmdUnit(args []string) int {
 		for _, o := range u.Obligs {
 			if o.Status != "unsat" {
 				bad++
-				fmt.Printf("FAIL %-8s %s  (%s %.2fs) %s\n", o.Status, o.Name, o.Solver, o.Seconds, o.Src)
+				fmt.Printf("FAIL %-8s %s part=%d/%d (%s %.2fs) %s\n", o.Status, o.Name, o.FailPart, len(o.Parts), o.Solver, o.Seconds, o.Src)
 				if *verbose {
 					fmt.Println(o.Output)
 				}
@@ -114,5 +114,3 @@ func cmdUnit(args []string) int {
 	return 0
 }
 
-func cmdCheck(args []string) int  { return 2 }
-func cmdReplay(args []string) int { return 2 }
